@@ -277,6 +277,10 @@ def _build(case, d):
     ns = len(files)
     parts = [ns // nf + (1 if i < ns % nf else 0) for i in range(nf)] if ns else []
     lay = {"folders": [{"n": p, "chain": chain, "crc": "sub"} for p in parts if p], "header": "lzma+crc"}
+    if len(members) % 3 == 0:
+        # a third of the reference-written archives keep their packed streams away from the signature header (PackPos > 0):
+        # skipping to a selected member must start from there (see seed C12c: one call site that forgets PackPos)
+        lay["packpos"] = 37
     if case.get("dirslash"):
         order = [((n + "/") if k == "dir" else n, k, b) for n, k, b in order]
     return order, W.build(members, lay)
